@@ -91,6 +91,46 @@ def same_patch_twice(isa, fmt, rnd):
     return None
 
 
+def global_labels_across_patches(rnd):
+    """Two patches of one rewrite, in one block or in two: the second refers to a global label the first defines (it must bind to that
+    one symbol), or defines the same global label again (MultipleDefinitionsError).  Returns a violation text or None."""
+    import gtirb_rewriting
+    from helpers import literal_patch
+    isa, fmt = rnd.choice(ABIS)
+    m, b = abi_module(isa, fmt)
+    import sys
+    sys.path.insert(0, "/repo/tests")
+    from gtirb_test_helpers import add_code_block
+    b2 = add_code_block(b.byte_interval, CODE[isa])
+    step = 1 if isa in ("X64", "IA32") else 4
+    same_block = rnd.random() < 0.6
+    redefine = rnd.random() < 0.4
+    first = f"glob_a:\n{NOP[isa]}\n"
+    second = first if redefine else BRANCH[isa].format(l="glob_a") + "\n"
+    ctx = gtirb_rewriting.RewritingContext(m, [])
+    ctx.insert_at(b, 0, literal_patch(first))
+    ctx.insert_at(b if same_block else b2, step, literal_patch(second))
+    desc = f"{isa} {fmt}: a patch defining glob_a and a later patch {'defining it again' if redefine else 'branching to it'}, {'in one block' if same_block else 'in two blocks'}"
+    try:
+        ctx.apply()
+        raised = None
+    except Exception as e:    # noqa
+        raised = type(e).__name__
+    if redefine:
+        if raised != "MultipleDefinitionsError":
+            return f"{desc}: {'no error' if raised is None else raised}, expected MultipleDefinitionsError"
+        return None
+    if raised:
+        return f"{desc}: apply raises {raised}"
+    syms = [s_ for s_ in m.symbols if s_.name == "glob_a"]
+    if len(syms) != 1:
+        return f"{desc}: {len(syms)} symbols named glob_a"
+    users = [e for bi in m.byte_intervals for e in bi.symbolic_expressions.values() if any(x.name == "glob_a" for x in e.symbols)]
+    if len(users) != 1 or users[0].symbol is not syms[0]:
+        return f"{desc}: the branch does not use the module's symbol glob_a"
+    return None
+
+
 class C13(C12):
     id = "C13"
     prop_file = "Properties/C13.v"
@@ -241,6 +281,11 @@ class C13(C12):
                 w = same_patch_twice(isa, fmt, rnd3)
                 if w:
                     bads.append(dict(what=w, input={"abi": [isa, fmt]}, finding=None))
+        for _ in range({"quick": 150, "thorough": 1500}["thorough" if boosted else tier]):
+            extra += 1
+            w = global_labels_across_patches(rnd3)
+            if w:
+                bads.append(dict(what=w, input="global_labels_across_patches()", finding=None))
         bads = [b for b in bads if b["finding"] is None][:10] + [b for b in bads if b["finding"]][:2]
         return dict(evaluations=len(pairs) + extra, violations=bads, samples=[{"oracle": "symbol identity and uniqueness; chunked == whole; two copies with different suffixes"}])
 
